@@ -86,6 +86,15 @@ def step (st : State) (toks : List String) : State × String :=
     | some _, some k =>
       (st, showCall (getHandler st.reg k) ++ "\t#spec " ++ showCall (registered st.evs k))
     | _, _ => (st, "bad-op")
+  | ["proxy", tmo, _size, fault, _budget] =>
+    -- C14 on the real transport: the reply is lost while its body is in flight (the handler has run).  A link that goes quiet
+    -- ends in the client's timeout (RpcNet: the `timeout` step at `tau`), a connection that is torn down in a connection error
+    -- (RpcNet: the `drop` step); never in a reply that is not the handler's, never in another error code, never late.
+    match tmo.toNat? with
+    | some tau =>
+      let out := if fault == "none" then "reply" else if fault == "close" then "conn" else if tau != 0 then "timeout" else "pending"
+      (st, s!"proxy {out} in-time")
+    | none => (st, "bad-op")
   | _ => (st, "bad-op")
 
 end Driver.RpcDom
